@@ -491,6 +491,98 @@ def files_case(case):
         shutil.rmtree(d, ignore_errors=True)
 
 
+def skipping_case(case):
+    """user code EXCLUDES an element at run time (a hook calls feature.skip() / rule.skip() / scenario.skip() on the
+    element it is called for, at the k-th hook invocation): whatever that does to the run, the event stream stays a
+    well-formed bracket structure (uri feature ... eof per shown feature, scenario inside a feature, match/result
+    after a step), the JSON document is valid and has one entry per feature() event with the steps announced for it,
+    and plain prints every announced scenario"""
+    prog, cfgname, k = case[:3]
+    kind = case[3] if len(case) > 3 else "skip"     # "skip": the hook's own element, "skipf": the enclosing feature
+    cfg = dict(SWITCHES[cfgname])
+    holder = {}
+
+    def fm(config, o2p):
+        import io as _io
+        from behave.formatter.base import StreamOpener
+        from behave.formatter import _registry
+        res = []
+        for name in ("json", "plain"):
+            st = _io.StringIO()
+            holder[name] = st
+            res.append(_registry.select_formatter_class(name)(StreamOpener(stream=st), config))
+        return res
+    obs = harness.run_case(prog, cfg, faults={k: kind}, hooks=True, record_events=True, formatters=fm)
+    v = []
+    hname = obs["hooks"][k][0] if k < len(obs["hooks"]) else "?"
+
+    def bad(clause, msg):
+        v.append(({"subcheck": "skip-by-hook", "clause": clause, "hook": hname, "switches": cfgname,
+                   "skipped": "own-element" if kind == "skip" else "enclosing-feature"}, msg))
+    if obs["escaped"]:
+        bad("exception-escapes-run", "hook #%d (%s) skipped its element: run() raised %s: %s"
+            % (k, hname, obs["escaped"], obs.get("escaped_msg")))
+        return {"v": v, "dg": obs["escaped"], "out": "escaped"}
+    ev = obs["events"]
+    depth, open_feature, nfeat, announced = 0, None, 0, []
+    for i, e in enumerate(ev):
+        if e[0] == "feature":
+            if open_feature is not None:
+                bad("feature-without-eof", "feature %r announced at #%d while %r never got its eof" % (e[1], i, open_feature))
+                break
+            open_feature = e[1]
+            nfeat += 1
+        elif e[0] == "eof":
+            if open_feature is None:
+                bad("eof-without-feature", "eof at #%d without an open feature" % i)
+                break
+            open_feature = None
+        elif e[0] in ("rule", "background", "scenario", "step", "match", "result") and open_feature is None:
+            bad("event-outside-feature", "%r at #%d outside any feature" % (e, i))
+            break
+        if e[0] == "scenario":
+            announced.append(e[1])
+    else:
+        if open_feature is not None:
+            bad("feature-without-eof", "feature %r never got its eof (stream ends %r)" % (open_feature, ev[-3:]))
+    if not v:
+        try:
+            data = json.loads(holder["json"].getvalue() or "[]")
+        except Exception as e:          # noqa
+            data = None
+            bad("invalid-json", "JSON output does not parse: %r" % (e,))
+        if data is not None and len(data) != nfeat:
+            bad("json-feature-count", "JSON has %d features, %d feature() events were sent" % (len(data), nfeat))
+        if data is not None:
+            njs = sum(1 for f_ in data for el in f_.get("elements", []) if el.get("type") != "background")
+            if njs != len(announced):
+                bad("json-scenario-count", "JSON has %d scenario elements, %d scenario() events were sent" % (njs, len(announced)))
+        nplain = len(re.findall(r"^\s*Scenario( Outline)?:", holder["plain"].getvalue(), re.M))
+        if nplain != len(announced):
+            bad("plain-scenario-count", "plain prints %d scenario headers, %d scenario() events were sent" % (nplain, len(announced)))
+    return {"v": v, "nt": digest(case), "out": ("skip-by-hook", hname, cfgname, nfeat, len(announced)),
+            "dg": (obs["verdict"], ev, mask(holder["plain"].getvalue()))}
+
+
+def skipping_cases(tier):
+    quick = tier == "quick"
+    t = ("t",)
+    progs = [
+        (P.F((P.S(("pass", "pass")), P.S(("pass",), t), P.R((P.S(("pass",)), P.O((("pass",), ("pass",)))), bg=("pass",))), bg=("pass",)),
+         P.F((P.S(("pass",)),))),
+        (P.F((P.O2([((), (("pass",),)), (t, (("pass",),))]), P.S(("pass", "fail"))), tags=t),
+         P.F((P.R((P.S(("pass",)),)),))),
+    ]
+    for prog in progs:
+        base = refrun.predict(prog, {}, hooks=True).hooks
+        for k, (name, ref_) in enumerate(base):
+            if name in ("before_all", "after_all"):
+                continue
+            for cfgname in (("default", "tags_hide") if quick else ("default", "tags_hide", "tags_show", "stop", "cafs")):
+                yield (prog, cfgname, k)
+                yield (prog, cfgname, k, "skipf")
+
+
 def files_cases(tier):
     quick = tier == "quick"
     progs = [p for i, p in enumerate(programs(tier)) if i % (23 if quick else 7) == 1]
@@ -581,5 +673,7 @@ def run(ctx):
     ctx.bounds = {"formatters": len(FORMATTERS), "lineup_size": "1-2 all ordered; 3 over a 5-formatter core",
                   "deviations": 1 if ctx.quick else 2, "switch_combinations": len(SWITCHES)}
     ctx.sweep(run_case, cases(ctx.tier), chunk=24, name="programs x formatter line-ups x switches")
+    ctx.sweep(skipping_case, skipping_cases(ctx.tier), chunk=16,
+              name="a hook excludes its element at run time (skip()): event brackets, JSON and plain stay consistent")
     ctx.sweep(files_case, files_cases(ctx.tier), chunk=16, name="-f/-o pairs through Configuration and make_formatters")
     ctx.guard(len(ctx.outcomes) > 30, "at least 30 distinct outcome classes")
